@@ -183,6 +183,26 @@ func (f *fakes) set(server int, vid uint32, s repScript) {
 	f.mu.Unlock()
 }
 
+func (f *fakes) logLen() int {
+	f.mu.Lock()
+	defer f.mu.Unlock()
+	return len(f.log)
+}
+
+// scriptsOf returns copies of the scripts currently installed for vid on the given servers.
+func (f *fakes) scriptsOf(servers []int, vid uint32) []*repScript {
+	f.mu.Lock()
+	defer f.mu.Unlock()
+	out := make([]*repScript, len(servers))
+	for i, s := range servers {
+		if sc := f.scripts[[2]int{s, int(vid)}]; sc != nil {
+			c := *sc
+			out[i] = &c
+		}
+	}
+	return out
+}
+
 func (f *fakes) takeLog() []event {
 	f.mu.Lock()
 	defer f.mu.Unlock()
